@@ -11,7 +11,7 @@ from .optimize_contractions import (
     optimize_contractions, unoptimized_contraction
 )
 
-from sympy import Symbol, Rational, Pow, Mul
+from sympy import Symbol, Rational, Pow, Mul, sympify
 from collections import Counter
 
 
@@ -303,6 +303,13 @@ def format_prefactor(term: Term, backend: str) -> str:
     """Formats the prefactor for Python (einsum) or C++ (libtensor)."""
     # extract number and symbolic prefactor
     number_pref = term.prefactor
+    for obj in term.objects:
+        if isinstance(obj.base, Symbol) and \
+                not (sympify(obj.exponent).is_Integer and obj.exponent > 0):
+            raise NotImplementedError(f"Found symbol {obj} with exponent "
+                                      f"{obj.exponent} in {term}. Only "
+                                      "positive integer exponents are "
+                                      "implemented for symbolic prefactors.")
     symbol_pref = " * ".join(
         [obj.base.name for obj in term.objects
          if isinstance(obj.base, Symbol) for _ in range(obj.exponent)]
